@@ -45,6 +45,30 @@ def ctc_brute(P, blank):
     return out
 
 
+def ctc_forward_log(logP, labels, blank):
+    """log of the true CTC probability of one transcript by the forward recursion (for lines too long to enumerate)"""
+    states = [blank]
+    for l in labels:
+        states += [l, blank]
+    S = len(states)
+    cur = [NEG] * S
+    cur[0] = logP[0][blank]
+    if S > 1:
+        cur[1] = logP[0][states[1]]
+    for row in logP[1:]:
+        nxt = [NEG] * S
+        for k in range(S):
+            v = cur[k]
+            if k >= 1:
+                v = lse(v, cur[k - 1])
+            if k >= 2 and states[k] != blank and states[k] != states[k - 2]:
+                v = lse(v, cur[k - 2])
+            if v != NEG and row[states[k]] != NEG:
+                nxt[k] = v + row[states[k]]
+        cur = nxt
+    return lse(cur[-1], cur[-2]) if S > 1 else cur[-1]
+
+
 def ref_prefix_beam(logP, k, select, lm_score=None, lm_scale=1.0, eps=1e-9, max_branches=64):
     """logP: list of rows of log-probabilities, blank last.
     select(row_nonblank) -> list of selected symbol indices for this frame.
